@@ -7,13 +7,14 @@
   Reference: H5.Spec.Sniff (Encoding standard BOM sniff / get an encoding; HTML standard precedence, prescan,
   changing the encoding while parsing).
 
-  Proved for all inputs: label lookup = "get an encoding"; the chain = the documented precedence (`C06_precedence`
-  + one corollary per clause); `detectBOM` = BOM sniff except for UTF-32 look-alikes and inputs shorter than four
-  bytes (witnesses); a declared UTF-16 from the prescan means UTF-8; a certain encoding is never changed
-  (`C06_certain`); the late `<meta>` decision in closed form and its agreement with the standard except for a
-  declared UTF-16 / x-user-defined / a tentative UTF-16 document (witnesses); the prescan never runs out of the fuel
-  `len + 2` of its loops (`C06_prescan_terminates`).  Each of the ten documented deviations of the prescan from the
-  standard has a machine-checked witness (`C06_witness_*`).
+  Proved for all inputs (code after repairs 7aa7032, 907ffcc, 10ad92e, 4d54525): label lookup = "get an encoding"
+  for every label incl. lone surrogates; the chain = the documented precedence for every assignment of the arguments
+  (`C06_precedence` + one corollary per clause); `detectBOM` = BOM sniff for EVERY byte string (`C06_bom_spec`); a
+  declared UTF-16 from the prescan means UTF-8; a certain encoding is never changed (`C06_certain`); the late `<meta>`
+  decision in closed form and its agreement with the standard (incl. a late UTF-16) except for x-user-defined and a
+  tentative UTF-16 document (witnesses); the prescan never runs out of the fuel `len + 2` of its loops
+  (`C06_prescan_terminates`).  Each of the ten documented deviations of the prescan from the standard has a
+  machine-checked witness (`C06_witness_*`); the witnesses of repaired defects are kept as `*_regression` examples.
 -/
 import H5.Model.Encoding
 import H5.Spec.Sniff
@@ -75,8 +76,7 @@ theorem table_utf16 : ∀ kv ∈ encodingLabels, kv.2.startsWith utf16pfx = (kv.
 /-- TableOK: the labels html5lib itself looks up resolve as expected -/
 theorem table_fixed :
     lookupLabel finalFallbackLabel = some w1252 ∧ lookupLabel utf8 = some utf8 ∧
-    lookupLabel utf16le = some utf16le ∧ lookupLabel utf16be = some utf16be ∧
-    lookupLabel (lit "utf-32le") = none ∧ lookupLabel (lit "utf-32be") = none ∧ chardetInstalled = false := by
+    lookupLabel utf16le = some utf16le ∧ lookupLabel utf16be = some utf16be ∧ chardetInstalled = false := by
   decide +kernel
 
 theorem lookup_mem (s e : Str) (h : lookupLabel s = some e) : ∃ kv ∈ encodingLabels, kv.2 = e := by
@@ -97,15 +97,41 @@ theorem startsWith_utf16 (s e : Str) (h : lookupLabel s = some e) :
 
 /-! ### precedence -/
 
-/-- the label (if any) contains no lone surrogate — otherwise `webencodings.ascii_lower` raises -/
-def NoSurr (l : Option Str) : Prop := ∀ s, l = some s → (stripLabel s).any isSurrogate = false
+/-- TableOK: every label of the table is ASCII -/
+theorem table_ascii : ∀ kv ∈ encodingLabels, kv.1.all (fun c => decide (c < 128)) = true := by
+  decide +kernel
 
-theorem lookupStr_spec (l : Option Str) (h : NoSurr l) : lookupEncodingStr l = .ok (Spec.Sniff.label? l) := by
+/-- a label containing a lone surrogate is in no row of the table: since repair 4d54525 (`UnicodeEncodeError` caught)
+it is simply an unknown label, as in the Encoding standard -/
+theorem lookupLabel_surrogate (s : Str) (h : (stripLabel s).any isSurrogate = true) : lookupLabel s = none := by
+  unfold lookupLabel
+  simp only [Option.map_eq_none_iff, List.find?_eq_none]
+  intro kv hkv heq
+  have hk : kv.1 = (stripLabel s).asciiLower := by simpa using heq
+  have hall := table_ascii kv hkv
+  rw [hk] at hall
+  rw [List.any_eq_true] at h
+  obtain ⟨c, hc, hs⟩ := h
+  rw [List.all_eq_true] at hall
+  have hlow : asciiLowerChar c = c := by
+    simp only [isSurrogate, Bool.and_eq_true, decide_eq_true_eq] at hs
+    unfold asciiLowerChar
+    split
+    · omega
+    · rfl
+  have := hall (asciiLowerChar c) (by simp only [Str.asciiLower]; exact List.mem_map_of_mem hc)
+  rw [hlow] at this
+  simp only [isSurrogate, Bool.and_eq_true, decide_eq_true_eq] at hs this
+  omega
+
+/-- `lookupEncoding` of an argument = "get an encoding" of the label, for EVERY label (None, unknown, surrogates…) -/
+theorem lookupStr_spec (l : Option Str) : lookupEncodingStr l = .ok (Spec.Sniff.label? l) := by
   cases l with
   | none => rfl
   | some s =>
-    have := h s rfl
-    simp [lookupEncodingStr, this, Spec.Sniff.label?, C06_lookup_spec]
+    by_cases h : (stripLabel s).any isSurrogate = true
+    · simp [lookupEncodingStr, h, Spec.Sniff.label?, ← C06_lookup_spec, lookupLabel_surrogate s h]
+    · simp [lookupEncodingStr, h, Spec.Sniff.label?, C06_lookup_spec]
 
 def toConf : Spec.Sniff.Confidence → Conf
   | .certain => .certain
@@ -117,26 +143,26 @@ def sources (bom m : Option Str) (a : Args) : Spec.Sniff.Sources :=
 
 /-- **C06 (precedence).**  The straight-line chain of `determineEncoding` computes the documented order
 (BOM, override, transport: certain; meta prescan, parent unless UTF-16, likely, default, windows-1252: tentative)
-for every byte string and every assignment of the five arguments whose labels contain no lone surrogate;
-`bom` is what `detectBOM` returns and `m` what the prescan returns. -/
+for every byte string and EVERY assignment of the five arguments (None, valid, unknown, UTF-16, even labels with lone
+surrogates); `bom` is what `detectBOM` returns (= the standard's BOM sniff, `C06_bom_spec`) and `m` what the prescan
+returns. -/
 theorem C06_precedence (metaScan : Nat → Except PyErr (Option Str)) (data : Bytes) (a : Args)
     (bom m : Option Str) (pos : Nat)
-    (hb : detectBOM data = .ok (bom, pos)) (hm : metaScan pos = .ok m)
-    (h1 : NoSurr a.override) (h2 : NoSurr a.transport) (h3 : NoSurr a.parent) (h4 : NoSurr a.likely)
-    (h5 : NoSurr a.default) :
+    (hb : detectBOM data = .ok (bom, pos)) (hm : metaScan pos = .ok m) :
     ∃ off, determineWith metaScan data a =
       .ok ⟨(Spec.Sniff.precedence (sources bom m a)).1, toConf (Spec.Sniff.precedence (sources bom m a)).2, off⟩ := by
   have hfb : lookupEncodingStr (some finalFallbackLabel) = .ok (some w1252) := by
     have : (stripLabel finalFallbackLabel).any isSurrogate = false := by decide
     simp [lookupEncodingStr, this, table_fixed.1]
-  have hcd : chardetInstalled = false := table_fixed.2.2.2.2.2.2
+  have hcd : chardetInstalled = false := table_fixed.2.2.2.2
+  have hfb2 : Spec.Sniff.label? (some finalFallbackLabel) = some w1252 := by
+    simp [Spec.Sniff.label?, ← C06_lookup_spec, table_fixed.1]
   unfold determineWith
   rw [hb]
   cases bom with
   | some e => exact ⟨pos, by simp [Spec.Sniff.precedence, sources, Spec.Sniff.firstSome, toConf]⟩
   | none =>
-    simp only [lookupStr_spec _ h1, lookupStr_spec _ h2, lookupStr_spec _ h3, lookupStr_spec _ h4,
-      lookupStr_spec _ h5, hm, hfb, hcd]
+    simp only [lookupStr_spec, hm, hfb2, hcd]
     cases ho : Spec.Sniff.label? a.override with
     | some e => exact ⟨pos, by simp [Spec.Sniff.precedence, sources, Spec.Sniff.firstSome, toConf, ho]⟩
     | none =>
@@ -173,13 +199,13 @@ theorem C06_precedence (metaScan : Nat → Except PyErr (Option Str)) (data : By
 theorem bom_labels :
     lookupEncodingStr (some utf8) = .ok (some utf8) ∧
     lookupEncodingStr (some utf16le) = .ok (some utf16le) ∧
-    lookupEncodingStr (some utf16be) = .ok (some utf16be) ∧
-    lookupEncodingStr (some (lit "utf-32le")) = .ok none ∧
-    lookupEncodingStr (some (lit "utf-32be")) = .ok none := by
+    lookupEncodingStr (some utf16be) = .ok (some utf16be) := by
   decide +kernel
 
-theorem bomDict_ok : bomDict = [([239, 187, 191], utf8), ([255, 254], utf16le), ([254, 255], utf16be),
-    ([255, 254, 0, 0], lit "utf-32le"), ([0, 0, 254, 255], lit "utf-32be")] := by decide
+theorem bomDict_ok : bomDict = [([239, 187, 191], utf8), ([255, 254], utf16le), ([254, 255], utf16be)] := by decide
+
+theorem bomLookup0 : bomLookup [] = none := by simp [bomLookup, bomDict_ok]
+theorem bomLookup1 (a : Nat) : bomLookup [a] = none := by simp [bomLookup, bomDict_ok]
 
 theorem bomLookup3 (a b c : Nat) :
     bomLookup [a, b, c] = if a = 239 ∧ b = 187 ∧ c = 191 then some utf8 else none := by
@@ -190,21 +216,7 @@ theorem bomLookup3 (a b c : Nat) :
       rw [Bool.eq_false_iff]; intro hh; simp at hh; exact h ⟨hh.1.symm, hh.2.1.symm, hh.2.2.symm⟩
     have hc : ([255, 254] == [a, b, c]) = false := by simp
     have hd : ([254, 255] == [a, b, c]) = false := by simp
-    have he : ([255, 254, 0, 0] == [a, b, c]) = false := by simp
-    have hf : ([0, 0, 254, 255] == [a, b, c]) = false := by simp
-    simp [h, hb, hc, hd, he, hf]
-
-theorem bomLookup4 (a b c d : Nat) (h1 : ¬ (a = 255 ∧ b = 254 ∧ c = 0 ∧ d = 0))
-    (h2 : ¬ (a = 0 ∧ b = 0 ∧ c = 254 ∧ d = 255)) : bomLookup [a, b, c, d] = none := by
-  simp only [bomLookup, bomDict_ok, List.find?_cons, List.find?_nil]
-  have g1 : ([255, 254, 0, 0] == [a, b, c, d]) = false := by
-    rw [Bool.eq_false_iff]; intro hh; simp at hh; exact h1 ⟨hh.1.symm, hh.2.1.symm, hh.2.2.1.symm, hh.2.2.2.symm⟩
-  have g2 : ([0, 0, 254, 255] == [a, b, c, d]) = false := by
-    rw [Bool.eq_false_iff]; intro hh; simp at hh; exact h2 ⟨hh.1.symm, hh.2.1.symm, hh.2.2.1.symm, hh.2.2.2.symm⟩
-  have g3 : ([239, 187, 191] == [a, b, c, d]) = false := by simp
-  have g4 : ([255, 254] == [a, b, c, d]) = false := by simp
-  have g5 : ([254, 255] == [a, b, c, d]) = false := by simp
-  simp [g1, g2, g3, g4, g5]
+    simp [h, hb, hc, hd]
 
 theorem bomLookup2 (a b : Nat) :
     bomLookup [a, b] = if a = 255 ∧ b = 254 then some utf16le else if a = 254 ∧ b = 255 then some utf16be else none := by
@@ -218,40 +230,93 @@ theorem bomLookup2 (a b : Nat) :
       have g2 : ([254, 255] == [a, b]) = false := by
         rw [Bool.eq_false_iff]; intro hh; simp at hh; exact h' ⟨hh.1.symm, hh.2.symm⟩
       have g3 : ([239, 187, 191] == [a, b]) = false := by simp
-      have g4 : ([255, 254, 0, 0] == [a, b]) = false := by simp
-      have g5 : ([0, 0, 254, 255] == [a, b]) = false := by simp
-      simp [h, h', g1, g2, g3, g4, g5]
+      simp [h, h', g1, g2, g3]
 
-/-- **C06 (BOM).**  On inputs of at least four bytes that do not start with a UTF-32 BOM, `detectBOM` is the BOM sniff
-of the Encoding standard (UTF-8, UTF-16BE, UTF-16LE) and leaves the stream just after the BOM. -/
-theorem C06_bom_spec (a b c d : Nat) (r : Bytes)
-    (h1 : ¬ (a = 255 ∧ b = 254 ∧ c = 0 ∧ d = 0)) (h2 : ¬ (a = 0 ∧ b = 0 ∧ c = 254 ∧ d = 255)) :
-    detectBOM (a :: b :: c :: d :: r) =
-      .ok ((Spec.Sniff.bomSniff (a :: b :: c :: d :: r)).map (·.1),
-           ((Spec.Sniff.bomSniff (a :: b :: c :: d :: r)).map (·.2)).getD 0) := by
+/-- the BOM sniff of the standard on two known leading bytes -/
+theorem bomSniff2 (a b : Nat) (t : Bytes) (h3 : ¬ (a = 239 ∧ b = 187 ∧ t.head? = some 191)) :
+    Spec.Sniff.bomSniff (a :: b :: t) =
+      if a = 254 ∧ b = 255 then some (utf16be, 2) else if a = 255 ∧ b = 254 then some (utf16le, 2) else none := by
+  unfold Spec.Sniff.bomSniff
+  split
+  · rename_i h; injection h with x h; injection h with y h
+    exact absurd ⟨x, y, by rw [h]; rfl⟩ h3
+  · rename_i h; injection h with x h; injection h with y _
+    subst x y; simp [lit_utf16be]
+  · rename_i h; injection h with x h; injection h with y _
+    subst x y; simp [lit_utf16le]
+  · rename_i n1 n2 n3
+    have e2 : ¬ (a = 254 ∧ b = 255) := fun ⟨x, y⟩ => n2 t (by rw [x, y])
+    have e3 : ¬ (a = 255 ∧ b = 254) := fun ⟨x, y⟩ => n3 t (by rw [x, y])
+    simp [e2, e3]
+
+/-- the two-byte decision of `detectBOM` agrees with it -/
+theorem detect2 (a b : Nat) (n : Nat) (hn : 2 ≤ n) :
+    (match (bomLookup [a, b], 2).1 with
+      | some e => match lookupEncodingStr (some e) with
+        | .error x => (.error x : Except PyErr (Option Str × Nat))
+        | .ok enc => .ok (enc, min 2 n)
+      | none => .ok (none, 0)) =
+    .ok ((if a = 254 ∧ b = 255 then some (utf16be, 2) else if a = 255 ∧ b = 254 then some (utf16le, 2) else none).map (·.1),
+         ((if a = 254 ∧ b = 255 then some (utf16be, 2) else if a = 255 ∧ b = 254 then some (utf16le, 2)
+           else (none : Option (Str × Nat))).map (·.2)).getD 0) := by
+  rw [bomLookup2]
+  have hmin : min 2 n = 2 := by omega
+  by_cases e2 : a = 254 ∧ b = 255
+  · obtain ⟨rfl, rfl⟩ := e2; simp [bom_labels.2.2, hmin]
+  · by_cases e3 : a = 255 ∧ b = 254
+    · obtain ⟨rfl, rfl⟩ := e3; simp [bom_labels.2.1, hmin]
+    · simp [e2, e3]
+
+/-- **C06 (BOM).**  For EVERY byte string — including inputs shorter than four bytes and `FF FE 00 00` — `detectBOM`
+is the BOM sniff of the Encoding standard (UTF-8, UTF-16BE, UTF-16LE) and leaves the raw stream just after the BOM
+(at 0 when there is none).  (Code after repairs 907ffcc: no UTF-32 entries, and 7aa7032: clamped seek.) -/
+theorem C06_bom_spec (data : Bytes) :
+    detectBOM data =
+      .ok ((Spec.Sniff.bomSniff data).map (·.1), ((Spec.Sniff.bomSniff data).map (·.2)).getD 0) := by
   unfold detectBOM
-  have t4 : (a :: b :: c :: d :: r).take 4 = [a, b, c, d] := rfl
-  have t3 : [a, b, c, d].take 3 = [a, b, c] := rfl
-  have t2 : [a, b, c, d].take 2 = [a, b] := rfl
-  simp only [t4, t3, t2, bomLookup3, bomLookup4 a b c d h1 h2, bomLookup2]
-  by_cases e1 : a = 239 ∧ b = 187 ∧ c = 191
-  · obtain ⟨rfl, rfl, rfl⟩ := e1
-    simp [Spec.Sniff.bomSniff, bom_labels.1, lit_utf8]
-  · by_cases e2 : a = 254 ∧ b = 255
-    · obtain ⟨rfl, rfl⟩ := e2
-      simp [Spec.Sniff.bomSniff, bom_labels.2.2.1, lit_utf16be]
-    · by_cases e3 : a = 255 ∧ b = 254
-      · obtain ⟨rfl, rfl⟩ := e3
-        simp [Spec.Sniff.bomSniff, bom_labels.2.1, lit_utf16le]
-      · simp only [e1, e2, e3, if_false]
-        have : Spec.Sniff.bomSniff (a :: b :: c :: d :: r) = none := by
-          unfold Spec.Sniff.bomSniff
-          split
-          · rename_i h; injection h with x h; injection h with y h; injection h with z _; exact absurd ⟨x, y, z⟩ e1
-          · rename_i h; injection h with x h; injection h with y _; exact absurd ⟨x, y⟩ e2
-          · rename_i h; injection h with x h; injection h with y _; exact absurd ⟨x, y⟩ e3
-          · rfl
-        simp [this]
+  match data with
+  | [] => simp [bomLookup0, Spec.Sniff.bomSniff]
+  | [a] => simp [bomLookup1, Spec.Sniff.bomSniff]
+  | [a, b] =>
+    have t : ([a, b] : Bytes).take 4 = [a, b] := rfl
+    have t3 : ([a, b] : Bytes).take 3 = [a, b] := rfl
+    have t2 : ([a, b] : Bytes).take 2 = [a, b] := rfl
+    simp only [t, t3, t2]
+    rw [bomSniff2 a b [] (by simp)]
+    -- the first probe `string[:3]` already sees the two bytes: seek 3 is clamped to 2
+    have h := detect2 a b 2 (by omega)
+    rw [bomLookup2] at h ⊢
+    by_cases e3 : a = 255 ∧ b = 254
+    · obtain ⟨rfl, rfl⟩ := e3; simp [bom_labels.2.1]
+    · by_cases e2 : a = 254 ∧ b = 255
+      · obtain ⟨rfl, rfl⟩ := e2; simp [bom_labels.2.2]
+      · simp [e2, e3]
+  | a :: b :: c :: t =>
+    have hl : ((a :: b :: c :: t).take 4).length ≥ 3 := by
+      cases t <;> simp
+    have t3 : ((a :: b :: c :: t).take 4).take 3 = [a, b, c] := by cases t <;> rfl
+    have t2 : ((a :: b :: c :: t).take 4).take 2 = [a, b] := by cases t <;> rfl
+    simp only [t3, t2, bomLookup3]
+    by_cases e1 : a = 239 ∧ b = 187 ∧ c = 191
+    · obtain ⟨rfl, rfl, rfl⟩ := e1
+      have hmin : min 3 ((239 :: 187 :: 191 :: t).take 4).length = 3 := by omega
+      simp [Spec.Sniff.bomSniff, bom_labels.1, lit_utf8, hmin]
+    · simp only [e1, if_false]
+      rw [bomSniff2 a b (c :: t) (by intro ⟨x, y, z⟩; exact e1 ⟨x, y, by simpa using z⟩)]
+      exact detect2 a b _ (by omega)
+
+/-- regression examples (witnesses of the repaired defects): `FF FE 00 00` is a UTF-16LE BOM followed by U+0000,
+also when a certain encoding is given (no bytes are dropped any more: offset 2 is the end of the real BOM);
+`00 00 FE FF` is no BOM; a stream that is only a UTF-16 BOM seeks to its end, not past it -/
+theorem C06_bom_regression :
+    detectBOM [255, 254, 0, 0, 65, 0] = .ok (some utf16le, 2) ∧
+    determineEncoding [255, 254, 0, 0, 65, 0] {} = .ok ⟨utf16le, .certain, 2⟩ ∧
+    determineEncoding [255, 254, 0, 0, 65, 0] { override := some utf8 } = .ok ⟨utf16le, .certain, 2⟩ ∧
+    detectBOM [0, 0, 254, 255, 65] = .ok (none, 0) ∧
+    determineEncoding [0, 0, 254, 255, 65] { override := some utf8 } = .ok ⟨utf8, .certain, 0⟩ ∧
+    detectBOM [255, 254] = .ok (some utf16le, 2) ∧ detectBOM [254, 255] = .ok (some utf16be, 2) ∧
+    detectBOM [255, 254, 65] = .ok (some utf16le, 2) ∧ detectBOM [239, 187] = .ok (none, 0) := by
+  decide +kernel
 
 /-! ### one corollary per clause of the precedence -/
 
@@ -316,7 +381,7 @@ theorem C06_fallback_windows1252 (ms : Nat → Except PyErr (Option Str)) (data 
     have : (stripLabel finalFallbackLabel).any isSurrogate = false := by decide
     simp [lookupEncodingStr, this, table_fixed.1]
   have hn : lookupEncodingStr none = .ok none := rfl
-  simp [determineWith, hb, hm, hn, table_fixed.2.2.2.2.2.2, hfb]
+  simp [determineWith, hb, hm, hn, table_fixed.2.2.2.2, hfb]
 
 /-- a `<meta>` declaring UTF-16 found by the prescan means UTF-8: the prescan never reports UTF-16 -/
 theorem C06_meta_utf16_means_utf8 (data : Bytes) (pos : Nat) (e : Str)
@@ -363,25 +428,30 @@ theorem changeEncoding_tentative_none (cur : Str) (l : Label) (h : lookupEncodin
     changeEncoding cur .tentative l = .ok .unchanged := by
   simp [changeEncoding, h]
 
+/-- closed form of `changeEncoding` under a tentative encoding: a declared UTF-16 is taken as UTF-8, then the
+"same encoding / other encoding" test runs on the mapped value (`if`, not `elif`, since repair 10ad92e) -/
 theorem changeEncoding_tentative_some (cur : Str) (l : Label) (e : Str) (h : lookupEncodingAny l = .ok (some e)) :
     changeEncoding cur .tentative l =
-      .ok (if e = utf16be ∨ e = utf16le then .unchanged else if e = cur then .nowCertain else .reparse e) := by
+      .ok (if (if e = utf16be ∨ e = utf16le then utf8 else e) = cur then .nowCertain
+           else .reparse (if e = utf16be ∨ e = utf16le then utf8 else e)) := by
   have hu : lookupEncodingStr (some (lit "utf-8")) = .ok (some utf8) := by rw [lit_utf8]; exact bom_labels.1
   simp only [changeEncoding, h, lit_utf16be, lit_utf16le, hu]
   by_cases h1 : e = utf16be ∨ e = utf16le
-  · simp [h1]
+  · by_cases h2 : utf8 = cur
+    · simp [h1, h2]
+    · simp [h1, h2]
   · by_cases h2 : e = cur
     · subst h2; simp [h1]
     · simp [h1, h2]
 
 /-- **C06 (late meta), partial.**  A `<meta charset=label>` met by the tree builder while the encoding is tentative:
-html5lib agrees with the standard's "changing the encoding while parsing" — restart with the declared encoding,
-or just become certain when it is the current one, or ignore an unknown label — PROVIDED the label does not name
-UTF-16 or x-user-defined and the current encoding is not UTF-16.  Missing for the full statement: exactly these
-three cases (witnesses below; html5lib defect: the `if/elif` chain of changeEncoding drops a declared UTF-16). -/
+html5lib agrees with the standard's "changing the encoding while parsing" — a declared UTF-16 means UTF-8, restart
+with the declared encoding, or just become certain when it is the current one, or ignore an unknown label (any
+label, also one with lone surrogates) — PROVIDED the label does not name x-user-defined and the current (tentative)
+encoding is not UTF-16.  Missing for the full statement: exactly these two cases (witnesses below, both still open). -/
 theorem C06_late_meta_partial (cur label : Str) (attrs : List (Str × Str))
-    (hc : attrGet attrs "charset" = some label) (hs : NoSurr (some label))
-    (h16 : ∀ e, lookupLabel label = some e → e ≠ utf16le ∧ e ≠ utf16be ∧ e ≠ lit "x-user-defined")
+    (hc : attrGet attrs "charset" = some label)
+    (hxud : lookupLabel label ≠ some (lit "x-user-defined"))
     (hcur : cur ≠ utf16le ∧ cur ≠ utf16be) :
     startTagMeta cur .tentative attrs = .ok (match Spec.Sniff.changeWhileParsing cur .tentative label with
       | .unchanged => .unchanged
@@ -389,7 +459,7 @@ theorem C06_late_meta_partial (cur label : Str) (attrs : List (Str × Str))
       | .restart e => .reparse e) := by
   have harg : startTagMetaArg .tentative attrs = .ok (some (.str label)) := by simp [startTagMetaArg, hc]
   have hl : lookupEncodingAny (.str label) = .ok (lookupLabel label) := by
-    have := lookupStr_spec (some label) hs
+    have := lookupStr_spec (some label)
     simp only [lookupEncodingAny, this, Spec.Sniff.label?, Option.bind_some, C06_lookup_spec]
   have hcur16 : Spec.Sniff.isUtf16 cur = false := by
     rw [isUtf16_eq]; simp [hcur.1, hcur.2]
@@ -401,20 +471,32 @@ theorem C06_late_meta_partial (cur label : Str) (attrs : List (Str × Str))
     rw [changeEncoding_tentative_none cur _ hl]
     simp
   | some e =>
-    rw [hn] at hl
+    rw [hn] at hl hxud
     rw [changeEncoding_tentative_some cur _ e hl]
-    obtain ⟨n1, n2, n3⟩ := h16 e hn
-    have he16 : Spec.Sniff.isUtf16 e = false := by rw [isUtf16_eq]; simp [n1, n2]
-    have : ¬ (e = utf16be ∨ e = utf16le) := fun h => h.elim n2 n1
-    by_cases hec : e = cur
-    · subst hec; simp [he16, n3, this]
-    · simp [hcur16, he16, n3, this, hec]
+    have n3 : e ≠ lit "x-user-defined" := fun h => hxud (by rw [h])
+    by_cases h16 : e = utf16be ∨ e = utf16le
+    · have he16 : Spec.Sniff.isUtf16 e = true := by
+        rw [isUtf16_eq]; rcases h16 with h | h <;> simp [h]
+      by_cases hec : utf8 = cur
+      · subst hec; simp [h16, he16, lit_utf8, hcur16]
+      · simp [h16, he16, lit_utf8, hcur16, hec]
+    · have he16 : Spec.Sniff.isUtf16 e = false := by
+        rw [isUtf16_eq]
+        have n1 : e ≠ utf16le := fun h => h16 (Or.inr h)
+        have n2 : e ≠ utf16be := fun h => h16 (Or.inl h)
+        simp [n1, n2]
+      by_cases hec : e = cur
+      · subst hec; simp [he16, n3, h16]
+      · simp [hcur16, he16, n3, h16, hec]
 
-/-- **defect witness**: a late `<meta charset=utf-16>` under a tentative windows-1252 is silently ignored
-(the standard: UTF-16 means UTF-8, so the document is parsed again as UTF-8) -/
-theorem C06_late_utf16_ignored_witness :
-    startTagMeta w1252 .tentative [(lit "charset", lit "utf-16")] = .ok .unchanged ∧
-    Spec.Sniff.changeWhileParsing w1252 .tentative (lit "utf-16") = .restart utf8 := by
+/-- regression example (witness of the repaired defect `late-meta:utf16-ignored`): a late `<meta charset=utf-16>`
+under a tentative windows-1252 now restarts the parse as UTF-8, as the standard says; under a tentative UTF-8 it only
+makes the encoding certain -/
+theorem C06_late_utf16_regression :
+    startTagMeta w1252 .tentative [(lit "charset", lit "utf-16")] = .ok (.reparse utf8) ∧
+    Spec.Sniff.changeWhileParsing w1252 .tentative (lit "utf-16") = .restart utf8 ∧
+    startTagMeta utf8 .tentative [(lit "charset", lit "UTF-16BE")] = .ok .nowCertain ∧
+    Spec.Sniff.changeWhileParsing utf8 .tentative (lit "UTF-16BE") = .nowCertain := by
   decide +kernel
 
 /-- the same label in the first 1024 bytes is handled (prescan: UTF-16 → UTF-8) -/
@@ -457,29 +539,12 @@ theorem C06_detectEncodingMeta_terminates (data : Bytes) (pos : Nat) (site : Str
     · cases h
   · cases h
 
-/-! ### BOM witnesses -/
+/-! ### regression example for the repaired label lookup (BOM regressions: `C06_bom_regression`) -/
 
-/-- **defect witness**: FF FE 00 00 (UTF-16LE BOM + U+0000) is taken for a UTF-32LE BOM, which webencodings does
-not know: no BOM is reported (the standard: UTF-16LE), and the raw stream stays at offset 4 when a certain encoding
-follows (four bytes are dropped), at 0 otherwise. -/
-theorem C06_utf32_bom_witness :
-    detectBOM [255, 254, 0, 0, 65, 0] = .ok (none, 4) ∧
-    Spec.Sniff.bomSniff [255, 254, 0, 0, 65, 0] = some (utf16le, 2) ∧
-    determineEncoding [255, 254, 0, 0, 65, 0] {} = .ok ⟨w1252, .tentative, 0⟩ ∧
-    determineEncoding [255, 254, 0, 0, 65, 0] { override := some utf8 } = .ok ⟨utf8, .certain, 4⟩ ∧
-    detectBOM [0, 0, 254, 255, 65] = .ok (none, 4) ∧ Spec.Sniff.bomSniff [0, 0, 254, 255, 65] = none := by
-  decide +kernel
-
-/-- inputs shorter than four bytes: the three probes `string[:3]`, `string`, `string[:2]` coincide, so a lone
-UTF-16 BOM matches at the first probe and the stream is sought to offset 3, past the end -/
-theorem C06_short_bom_witness :
-    detectBOM [255, 254] = .ok (some utf16le, 3) ∧ Spec.Sniff.bomSniff [255, 254] = some (utf16le, 2) ∧
-    detectBOM [255, 254, 65] = .ok (some utf16le, 2) := by
-  decide +kernel
-
-/-- a lone surrogate in an argument is not an "unknown label": it raises -/
-theorem C06_surrogate_label_witness :
-    determineEncoding [] { override := some [0xD800] } = .error (.unicodeEncode "webencodings.ascii_lower") := by
+/-- a lone surrogate in an argument is an unknown label (it used to raise UnicodeEncodeError): the chain falls through -/
+theorem C06_surrogate_label_regression :
+    determineEncoding [] { override := some [0xD800] } = .ok ⟨w1252, .tentative, 0⟩ ∧
+    determineEncoding [] { override := some [0xD800], transport := some utf8 } = .ok ⟨utf8, .certain, 0⟩ := by
   decide +kernel
 
 /-! ### the ten documented deviations of the prescan from the standard: one witness each
